@@ -68,7 +68,8 @@ def gen_desc(rng, prop):
                     d["plan"][str(it[0])] = {"kind": "raise", "phase": rng.choice(["before", "mid", "after"])}
         else:
             how = rng.choice(["item", "item", "take", "pill"])
-            d["death_code"] = rng.choice([7, 1, 137, 255])
+            # os._exit codes and deaths by signal (-9 is what the kernel OOM killer leaves)
+            d["death_code"] = rng.choice([7, 1, 137, 255, -9, -9, -15, -11])
             if how == "item":
                 it = rng.choice(items)
                 d["plan"][str(it[0])] = {"kind": "die", "phase": rng.choice(["before", "mid", "after"]), "code": d["death_code"]}
